@@ -111,6 +111,18 @@ func c10Scenarios() []c10Scenario {
 				Op{K: "ack", Refs: []Ref{{N: 0, Sub: "a"}}}, Op{K: "advance", D: 5 * Sec}),
 			Waiters: []c10Waiter{{Sub: "a", Max: 10}},
 			Writers: []c10Writer{{Op: Op{K: "seek_snap", Sub: "a", Snap: "n0"}, Adds: map[string]int{"a": 1}}}},
+		{Name: "seek-snapshot-acks-ordered-predecessor", Subs: []string{"o"},
+			Setup: with(Op{K: "create_sub", Sub: "o", Cfg: cfg(SubCfg{Topic: "t", Ordered: true})},
+				Op{K: "publish", Topic: "t", Msgs: []MsgSpec{m(0, "k"), m(1, "k")}}, Op{K: "advance", D: Ms}, Op{K: "pull", Sub: "a", Max: 10},
+				Op{K: "ack", Refs: []Ref{{N: 0, Sub: "a"}}}, Op{K: "snapshot", Sub: "a", Snap: "n0"}, Op{K: "pull", Sub: "o", Max: 1}, Op{K: "advance", D: Ms}),
+			Waiters: []c10Waiter{{Sub: "o", Max: 10}},
+			Writers: []c10Writer{{Op: Op{K: "seek_snap", Sub: "o", Snap: "n0"}, Adds: map[string]int{"o": 1}}}},
+		{Name: "seek-time-acks-ordered-predecessor", Subs: []string{"o"},
+			Setup: with(Op{K: "create_sub", Sub: "o", Cfg: cfg(SubCfg{Topic: "t", Ordered: true})}, Op{K: "advance", D: 5 * Sec},
+				Op{K: "publish", Topic: "t", Msgs: []MsgSpec{m(0, "k")}}, Op{K: "advance", D: 5 * Sec}, Op{K: "publish", Topic: "t", Msgs: []MsgSpec{m(1, "k")}},
+				Op{K: "pull", Sub: "o", Max: 1}, Op{K: "advance", D: Ms}),
+			Waiters: []c10Waiter{{Sub: "o", Max: 10}},
+			Writers: []c10Writer{{Op: Op{K: "seek_time", Sub: "o", D: 7 * Sec}, Adds: map[string]int{"o": 1}}}},
 		{Name: "spurious-wake-then-publish", Subs: []string{"a"},
 			Setup:   with(Op{K: "publish", Topic: "t", Msgs: []MsgSpec{m(0, "")}}, Op{K: "pull", Sub: "a", Max: 5}),
 			Waiters: []c10Waiter{{Sub: "a", Max: 10}},
@@ -721,6 +733,33 @@ func TestC10(t *testing.T) {
 		}
 		if len(st.Violations) > 0 {
 			break
+		}
+	}
+	// the wake set of every operation of random histories vs the store model (the `covers` side of the
+	// protocol theorem: who is woken by what)
+	if len(st.Violations) == 0 {
+		nh := 12
+		if Tier() == "thorough" {
+			nh = 150
+		}
+		prof := ProfileAll
+		prof.Seek, prof.Snap, prof.Ack, prof.Sweep = 3, 3, 5, 2
+		for hi := 0; hi < nh; hi++ {
+			seed := Seed()*7001 + int64(hi)
+			h := RunHistory(t, seed, NewGen(seed, prof), nil, 80, false)
+			st.Count("wake_histories", 1)
+			st.Count("wake_ops", len(h.Ops))
+			d, err := m.Check(h.Lines)
+			if err != nil {
+				t.Fatal(err)
+			}
+			if d != nil && mismatchKind(d.Answer) == "wakes" {
+				opk := opOfLine(h.Lines, d.LineNo)
+				p := writeReplay(fmt.Sprintf("C10-wake-set-%d.json", seed), replayFile{Property: "C10", Sig: "wake-set", Seed: seed, Ops: h.Ops[:len(h.Ops)],
+					What: d.String(), Trace: traceOf(h.Lines[:d.LineNo+1], 30)})
+				st.Violate(Violation{What: fmt.Sprintf("[wake-set] operation %s wakes other subscriptions than the store model says (history of %d operations): %s", opk, len(h.Ops), d.String()), Replay: p, FoundInput: false, Sig: "wake-set"})
+				break
+			}
 		}
 	}
 	if corrBroken != nil && len(st.Violations) == 0 {
